@@ -88,7 +88,144 @@ func ruleC16R1(w *World, r *Report) {
 			}
 		}
 		_ = examined
+		// inverted test: a return inside the region entered when the error was found nil that returns that very
+		// error value reports success from the middle of the function (`if err == nil { return err }`)
+		for _, b := range f.Blocks {
+			x, _, nilHead, ok := nilTest(b)
+			if !ok || !isErrorType(x.Type()) || !isCallError(x) {
+				continue
+			}
+			for _, ret := range returnsOf(f) {
+				if idx >= len(ret.Results) || ret.Results[idx] != x || !edgeDominates(b, nilHead, ret.Block()) {
+					continue
+				}
+				// harmless when nothing else would have happened: the function's remaining ways from the test all end here
+				r.Violate("C16.R1", fmt.Sprintf("%s:returns-nil-error:%s", funcName(f), errSourceName(x)), w.instrPos(ret),
+					fmt.Sprintf("returns the error of %s on the branch where it was just found nil: success is reported from here and the rest of %s is skipped (the test reads inverted)", errSourceName(x), funcName(f)))
+			}
+		}
+		// path form: from the non-nil edge of a nil test on a call's error, a way to a return of the nil constant that
+		// never touches the error again (not returned, wrapped, classified, logged or stored) reports the failure as
+		// success. Returns inside the edge's dominated region were classified above; this covers shared returns.
+		for _, rg := range regions {
+			if !isErrorType(rg.x.Type()) || !isCallError(rg.x) {
+				continue
+			}
+			key := fmt.Sprintf("%s:err-edge:%s", funcName(f), errSourceName(rg.x))
+			bad := unhandledErrorPath(rg.x, rg.test, rg.head, idx)
+			if bad != nil && edgeDominates(rg.test, rg.head, bad.Block()) {
+				continue // already reported by the region form
+			}
+			r.Check(bad == nil, "C16.R1", key, w.blockPos(rg.test), "every way on from the failure edge returns an error or handles it",
+				fmt.Sprintf("when %s fails the function can still reach the success return at %s without touching the error: the failure is reported as success", errSourceName(rg.x), posOr(w, bad)))
+		}
 	}
+}
+
+func posOr(w *World, in *ssa.Return) string {
+	if in == nil {
+		return "-"
+	}
+	return w.instrPos(in)
+}
+
+// isCallError: x is the error result of a call (directly or as the last component of its tuple).
+func isCallError(x ssa.Value) bool {
+	switch v := x.(type) {
+	case *ssa.Call:
+		return true
+	case *ssa.Extract:
+		_, ok := v.Tuple.(*ssa.Call)
+		return ok
+	}
+	return false
+}
+
+func errSourceName(x ssa.Value) string {
+	var c *ssa.Call
+	switch v := x.(type) {
+	case *ssa.Call:
+		c = v
+	case *ssa.Extract:
+		c, _ = v.Tuple.(*ssa.Call)
+	}
+	if c == nil {
+		return x.Name()
+	}
+	if sc := c.Common().StaticCallee(); sc != nil {
+		return funcName(sc)
+	}
+	if c.Common().IsInvoke() {
+		return c.Common().Method.Name()
+	}
+	return "call"
+}
+
+// unhandledErrorPath walks from head (entered from test) and returns a Return of the nil error constant reachable
+// without any instruction using x in between; nil when there is none.
+func unhandledErrorPath(x ssa.Value, test, head *ssa.BasicBlock, idx int) *ssa.Return {
+	type st struct{ b, prev *ssa.BasicBlock }
+	seen := map[st]bool{}
+	var walk func(b, prev *ssa.BasicBlock) *ssa.Return
+	walk = func(b, prev *ssa.BasicBlock) *ssa.Return {
+		if seen[st{b, prev}] {
+			return nil
+		}
+		seen[st{b, prev}] = true
+		for _, in := range b.Instrs {
+			if _, isDbg := in.(*ssa.DebugRef); isDbg {
+				continue
+			}
+			uses := false
+			for _, op := range in.Operands(nil) {
+				if op != nil && *op == x {
+					uses = true
+				}
+			}
+			if ph, ok := in.(*ssa.Phi); ok {
+				// only the edge taken counts
+				uses = false
+				for i, p := range b.Preds {
+					if p == prev && ph.Edges[i] == x {
+						uses = true
+					}
+				}
+			}
+			if uses {
+				if bo, ok := in.(*ssa.BinOp); ok && (isNilConst(bo.X) || isNilConst(bo.Y)) {
+					continue // another nil test of the same value handles nothing
+				}
+				return nil
+			}
+			if ret, ok := in.(*ssa.Return); ok {
+				if idx >= len(ret.Results) {
+					return nil
+				}
+				v := ret.Results[idx]
+				if ph, ok := v.(*ssa.Phi); ok && ph.Block() == b {
+					for i, p := range b.Preds {
+						if p == prev {
+							v = ph.Edges[i]
+						}
+					}
+				}
+				if isNilConst(v) {
+					return ret
+				}
+				return nil
+			}
+			if _, ok := in.(*ssa.Panic); ok {
+				return nil
+			}
+		}
+		for _, s := range b.Succs {
+			if r := walk(s, b); r != nil {
+				return r
+			}
+		}
+		return nil
+	}
+	return walk(head, test)
 }
 
 func isErrorLikePointer(t types.Type) bool {
@@ -381,6 +518,82 @@ func ruleC16R4(w *World, r *Report) {
 				}
 			})
 			r.Check(surf, "C16.R4", "withTextOutWriter:finish", w.pos(wtow.Pos()), "finish runs deferred and its error reaches the named result", "the error of finish() (flush/sync/close of the text-out file) is not surfaced")
+			// the body always runs: a return that does not come after f(tow) carries an error known to be non-nil
+			skips := returnSkipping(w, wtow, fCall, 0)
+			r.Check(skips == "", "C16.R4", "withTextOutWriter:f-always-runs", w.pos(wtow.Pos()), "every return that skips the command body reports a non-nil error", "withTextOutWriter can return at "+skips+" without running the command body and without an error known to be non-nil: the command reports success without doing its work")
+			// the deferred closure overwrites the result only with a non-nil finish error, or when the result was nil
+			eachInstr(wtow, func(in ssa.Instruction) {
+				d, ok := in.(*ssa.Defer)
+				if !ok {
+					return
+				}
+				mc, ok := d.Call.Value.(*ssa.MakeClosure)
+				if !ok {
+					return
+				}
+				df := mc.Fn.(*ssa.Function)
+				var stores []*ssa.Store
+				eachInstr(df, func(in2 ssa.Instruction) {
+					if st, ok := in2.(*ssa.Store); ok {
+						if fv, ok := st.Addr.(*ssa.FreeVar); ok {
+							for i, fvv := range df.FreeVars {
+								if fvv == fv && i < len(mc.Bindings) && retAllocs[mc.Bindings[i]] {
+									stores = append(stores, st)
+								}
+							}
+						}
+					}
+				})
+				if len(stores) == 0 {
+					return
+				}
+				e := &ddEngine{w: w, env: map[ssa.Value]aval{}, maxLeafs: 32}
+				e.run(df)
+				bad := ""
+				if e.err != nil {
+					bad = "cannot evaluate the deferred closure: " + e.err.Error()
+				}
+				for _, l := range e.leaves {
+					for _, st := range stores {
+						on := false
+						for _, b := range l.path {
+							if b == st.Block() {
+								on = true
+							}
+						}
+						if !on {
+							continue
+						}
+						if isFreshOrSentinel(st.Val) {
+							continue
+						}
+						justified := false
+						for k, chosen := range l.atoms {
+							bo, ok := l.atomVal[k].(*ssa.BinOp)
+							if !ok || (bo.Op != token.NEQ && bo.Op != token.EQL) {
+								continue
+							}
+							x := bo.X
+							if isNilConst(bo.X) {
+								x = bo.Y
+							} else if !isNilConst(bo.Y) {
+								continue
+							}
+							isNil := chosen == (bo.Op == token.EQL)
+							if x == st.Val && !isNil {
+								justified = true // the stored error is non-nil
+							}
+							if u, ok := x.(*ssa.UnOp); ok && u.Op == token.MUL && u.X == st.Addr && isNil {
+								justified = true // the result held no error
+							}
+						}
+						if !justified {
+							bad = "the deferred closure can overwrite the result with finish's error when that error is nil and the body's error is not"
+						}
+					}
+				}
+				r.Check(bad == "", "C16.R4", "withTextOutWriter:finish-keeps-error", w.pos(df.Pos()), "the result is overwritten only by a non-nil finish error or when it held no error", bad+": the command's failure is replaced by success")
+			})
 		}
 	}
 	// main.runSubcommand
@@ -409,6 +622,8 @@ func ruleC16R4(w *World, r *Report) {
 			} else {
 				r.OK("C16.R4", "runSubcommand:execute", w.instrPos(execCall), "Execute's error is returned")
 			}
+			skips := returnSkipping(w, rs, execCall, 0)
+			r.Check(skips == "", "C16.R4", "runSubcommand:execute-always-runs", w.pos(rs.Pos()), "every return that skips Execute reports a non-nil error", "runSubcommand can return at "+skips+" without calling Execute and without an error known to be non-nil: the command reports success without doing its work")
 		}
 	}
 	// main.run: every runSubcommand result reaches the exit-code mapping
@@ -479,4 +694,31 @@ func stripLoad(v ssa.Value) ssa.Value {
 		return u.X
 	}
 	return v
+}
+
+func isFreshOrSentinel(v ssa.Value) bool {
+	c := classifyErr(v).class
+	return c == errFresh || c == errSentinel
+}
+
+// returnSkipping: a return of f that does not come after call and whose error result (index idx) is not known to be
+// non-nil there; "" when there is none.
+func returnSkipping(w *World, f *ssa.Function, call ssa.Instruction, idx int) string {
+	skips := ""
+	for _, ret := range returnsOf(f) {
+		if (instrReaches(call, ret) && dominatesInstr(call, ret)) || ret.Block() == f.Recover {
+			continue
+		}
+		vals, complete := resultValues(ret, idx)
+		okRet := complete && len(vals) > 0
+		for _, v := range vals {
+			if !(isFreshOrSentinel(v) || knownNonNilAt(v, ret.Block())) {
+				okRet = false
+			}
+		}
+		if !okRet {
+			skips = w.instrPos(ret)
+		}
+	}
+	return skips
 }
